@@ -22,6 +22,8 @@ import (
 	"fmt"
 	"io"
 	"net"
+	"os"
+	"path/filepath"
 	"strings"
 	"sync"
 	"time"
@@ -643,4 +645,142 @@ func (c *ctxT) envCases() {
 	}
 	c.heldWriter(true)
 	c.heldWriter(false)
+}
+
+// ---------------------------------------------------------------------------------------------
+// probe facts of round D (run by `harness facts`)
+
+var teeProbeWays = []string{"Close", "Close+Close", "Serve+peerClose"}
+
+// teeCell: a session negotiated with no tee / a working tee / a TeeOut writer that fails when the
+// session is closed: closing tags the connection saw, what the closing calls returned, the bit.
+func teeCell(tee, way string) (tags int, res string, bit bool) {
+	var teeIn, teeOut *failWriter
+	var in, out io.Writer
+	if tee != "none" {
+		teeIn, teeOut = &failWriter{}, &failWriter{}
+		in, out = teeIn, teeOut
+	}
+	t, err := newTeeSess(in, out)
+	if err != nil {
+		return -1, "ERR", false
+	}
+	defer t.close()
+	cls := func(e error) string {
+		switch {
+		case e == nil:
+			return "ok"
+		case errors.Is(e, errTee):
+			return "ioerr"
+		}
+		return "other"
+	}
+	var rs []string
+	base := t.connWrites()
+	switch way {
+	case "Close", "Close+Close":
+		if tee == "failing" {
+			teeOut.setFail(true)
+		}
+		for range strings.Split(way, "+") {
+			var e error
+			if !common.WithTimeout(3*time.Second, func() { e = t.s.Close() }) {
+				rs = append(rs, "STALL")
+			} else {
+				rs = append(rs, cls(e))
+			}
+		}
+	case "Serve+peerClose":
+		t.startServe()
+		t.feedWithin(" ", 2*time.Second)
+		if tee == "failing" {
+			teeOut.setFail(true)
+		}
+		t.feed(closeTag)
+		if t.waitServe(3 * time.Second) {
+			rs = append(rs, cls(t.ret))
+		} else {
+			rs = append(rs, "STALL")
+		}
+	}
+	_, tags = t.connItems(base)
+	return tags, strings.Join(rs, ","), t.s.State()&xmpp.OutputStreamClosed != 0
+}
+
+var wdProbeEntries = []string{"t1", "t2", "t3", "t4", "t6"}
+var wdProbeFates = []struct {
+	name string
+	c    byte
+}{{"alive", 'a'}, {"over", 'x'}, {"cancelled", 'k'}}
+
+// wdCell: one transmit call with a context of the given fate on a transport that honours the
+// write deadline (deadline calls scheduled adversarially), then Close.
+func wdCell(op string, fate byte) (res string, clean, cleared bool, tags int) {
+	dir, err := os.MkdirTemp("", "c10probe")
+	if err != nil {
+		return "ERR", false, false, -1
+	}
+	defer os.RemoveAll(dir)
+	r, err := common.NewRun("C10", "quick", 1, dir, "")
+	if err != nil {
+		return "ERR", false, false, -1
+	}
+	c := &ctxT{r: r}
+	c.wdlHist([]string{op + string(fate), "c"})
+	r.Close()
+	b, _ := os.ReadFile(filepath.Join(dir, "impl.out"))
+	f := strings.Fields(strings.TrimPrefix(strings.TrimSpace(string(b)), "="))
+	if len(f) != 5 {
+		return "ERR", false, false, -1
+	}
+	cleared = f[3] == "wd=z"
+	for _, fl := range r.Failures {
+		if fl.Clause == "write-deadline-cleared" {
+			cleared = false
+		}
+	}
+	for _, it := range strings.Split(f[1], ",") {
+		if it == "close" {
+			tags++
+		}
+	}
+	return strings.Split(f[0], ",")[0], f[4] == "setters=clean", cleared, tags
+}
+
+func envProbeFacts(sb *strings.Builder) {
+	sb.WriteString("/-- PROBE (real sessions negotiated by xmpp.NewNegotiator): tee configuration x closing path:\n(closing tags the connection saw, results of the closing calls, output marked closed) -/\n")
+	sb.WriteString("def teeCloseProbe : Option (List (String × List (String × String))) := some [\n")
+	tees := []string{"none", "ok", "failing"}
+	for i, tee := range tees {
+		var l []string
+		for _, w := range teeProbeWays {
+			tags, res, bit := teeCell(tee, w)
+			if tags < 0 {
+				tags = 99
+			}
+			l = append(l, fmt.Sprintf("(%q, %q)", w, fmt.Sprintf("tags=%d res=%s closed=%v", tags, res, bit)))
+		}
+		sep := ","
+		if i == len(tees)-1 {
+			sep = "]"
+		}
+		fmt.Fprintf(sb, "  (%q, [%s])%s\n", tee, strings.Join(l, ", "), sep)
+	}
+	sb.WriteString("/-- PROBE (transport honouring the write deadline, deadline calls scheduled adversarially): entry point x fate of the call's context:\n(result, only \"past then clear\" pairs of SetWriteDeadline, write deadline cleared when the call returned, closing tags written by a following Close) -/\n")
+	sb.WriteString("def writeDeadlineProbe : Option (List (String × List (String × String))) := some [\n")
+	for i, op := range wdProbeEntries {
+		var l []string
+		for _, f := range wdProbeFates {
+			res, clean, cleared, tags := wdCell(op, f.c)
+			if tags < 0 {
+				tags = 99
+			}
+			l = append(l, fmt.Sprintf("(%q, %q)", f.name, fmt.Sprintf("res=%s pairs=%v cleared=%v tags=%d", res, clean, cleared, tags)))
+		}
+		sep := ","
+		if i == len(wdProbeEntries)-1 {
+			sep = "]"
+		}
+		fmt.Fprintf(sb, "  (%q, [%s])%s\n", txNames[op], strings.Join(l, ", "), sep)
+	}
 }
